@@ -296,7 +296,7 @@ fn nt_ev(name: &'static str) -> fn(&Events) -> bool {
 }
 
 fn pair_spec(id: &'static str, focus: &[u32], accept: Vec<&'static str>, tier: &str, nt: fn(&Events) -> bool) -> PairSpec {
-    let (cases, shards, max_ops) = if tier == "thorough" { (4000, 16, 40) } else { (700, 4, 28) };
+    let (cases, shards, max_ops) = if tier == "thorough" { (5000, 16, 70) } else { (1200, 4, 50) };
     PairSpec {
         id,
         focus: Focus::of(focus),
